@@ -318,6 +318,13 @@ pub fn build(tier: Tier) -> Check<'static> {
     }
     {
         let st = structs.clone();
+        let sp = crate::props::c02::sentence_texts();
+        c.parts.push(Part::new("grammar-sentences", sp.len(), "every sentence of the C02 reference-grammar enumeration (all production alternatives with their optional parts, all adjacent pairs)", move |i, acc| {
+            check_source(acc, &st, &sp.get(i), false, false, true, "reference grammar sentence");
+        }));
+    }
+    {
+        let st = structs.clone();
         let sp = crate::props::c01::lib_sentences(tier.pick(2, 3));
         c.parts.push(Part::new("lib-sentences", sp.len(), "library-map sentences", move |i, acc| {
             check_source(acc, &st, &sp.get(i), true, false, deep, "library sentence");
